@@ -182,8 +182,8 @@ def vocab(ctx, mi, T):
     pos = [norm_text(t) for (t, pol) in encl if pol]
     neg = [norm_text(t) for (t, pol) in encl if not pol]
     is_add_branch = any(' not in ' in t for t in pos) and not any('!=' in t for t in pos)
-    compound_only = any('> 7' in t for t in pos)
-    not_compound = any('> 7' in t for t in neg)
+    compound_only = any(t.startswith('7 < ') or ' 7 < ' in t for t in pos)
+    not_compound = any(t.startswith('7 < ') or ' 7 < ' in t for t in neg)
     is_alter_branch = any('!=' in t for t in pos)
     is_add = prefix == 'add'
     emitted = set()
@@ -258,8 +258,8 @@ def alter_branch_unreachable(ctx):
   lr = ctx.func('chord_symbols_lib:_largest_chord_kind_from_relative_pitches')
   dup = False
   for s in U.walk_stmts(lr.node):
-    if isinstance(s, ast.If) and isinstance(s.body[-1], ast.Continue) and isinstance(s.test, ast.Compare) and isinstance(s.test.ops[0], ast.Gt):
-      l, r = norm_text(s.test.left), norm_text(s.test.comparators[0])
+    if isinstance(s, ast.If) and isinstance(s.body[-1], ast.Continue) and isinstance(s.test, ast.Compare) and isinstance(s.test.ops[0], ast.Lt):
+      r, l = norm_text(s.test.left), norm_text(s.test.comparators[0])   # loader orientation: len(set(x)) < len(x)
       if l.startswith('len(') and r.startswith('len(set('):
         dup = True
   p2 = ctx.func('chord_symbols_lib:pitches_to_chord_symbol')
